@@ -91,7 +91,8 @@ def e3(ctx):
     core = list(drv.enum_core(3))
     if ctx.quick:
         core = [c for c in core if len(c[1]) <= 2 or all(p in ("E", "A", "B", "AB", "T") for p in c[1])]
-        core = rng.sample(core, 44)
+        must = [c for c in core if c[0] in ("dmd", "legacy") and c[1] in (("B", "E", "A"), ("AB", "T", "B"), ("A", "E", "E"), ("B", "T", "AB"))]
+        core = must + rng.sample([c for c in core if c not in must], 36)
     else:
         core = [c for c in core if len(c[1]) <= 2 or all(p in ("E", "A", "B", "AB", "T") for p in c[1])]
     for n, (ckind, pats) in enumerate(core):
@@ -160,8 +161,9 @@ def corrupted(scen, verdicts):
             if ff and not any(files[x - 1]["kind"] == "rf" for x in data) and not any(files[x - 1]["t"] == o["s"] for x in data) \
                     and not any(f["kind"] in ("legacy", "drfprop") for f in files):
                 put("forward-fill file removed from the result", "C14-misses-forward-fill-file", lambda e2: e2["f"]["res"].remove(ff[0]))
+            listed_in = {(files[x - 1]["ch"], files[x - 1]["kind"]) for x in data}
             out_of = [j + 1 for j, f in enumerate(files) if f["kind"] in ("rf", "md") and o["he"] and f["t"] > o["e"] and (j + 1) not in res
-                      and not f["tmp"] and f["ext"] and f["tok"] and f["depth"]]
+                      and not f["tmp"] and f["ext"] and f["tok"] and f["depth"] and (f["ch"], f["kind"]) in listed_in]
             if out_of and data:
                 put("file after the window added to the result", "C14-lists-file-outside-window", lambda e2: e2["f"]["res"].append(out_of[0]))
         if len(out) >= 8:
@@ -187,7 +189,8 @@ def run(ctx):
     for s in scen[:1] + scen[-1:]:
         ctx.sample(dict(name=s["name"], desc=s["desc"], tree=s["tree"], names=s["names"], events=s["events"][:2]))
     verdicts = ctx.validate("ListingTrace", "ListingTrace.cfg", scen, label="listing", relevant=lambda c: c.startswith("C14-"))
-    selfcheck(ctx, "ListingTrace", "ListingTrace.cfg", corrupted(scen, verdicts), need=5)
+    if not ctx.violations:   # (with violations the binding is evidently not vacuous; never let the self-check mask them)
+        selfcheck(ctx, "ListingTrace", "ListingTrace.cfg", corrupted(scen, verdicts), need=5)
 
 
 def replay(ctx, path):
